@@ -273,7 +273,6 @@ class Unfolder:
 
 
 def _constructed(q):
-    q = z3.simplify(q) if False else q
     if not z3.is_app(q):
         return False
     return q.decl().kind() in (z3.Z3_OP_SEQ_CONCAT, z3.Z3_OP_SEQ_EXTRACT, z3.Z3_OP_SEQ_UNIT, z3.Z3_OP_SEQ_EMPTY,
